@@ -29,7 +29,8 @@ type schedCase struct {
 	Cache string `json:"cache"` // mem | dir (SyncAdd) | dira (async file commit)
 	Sem   int    `json:"sem"`   // GOMAXPROCS seen by reader.Cache's semaphore
 	PB    int    `json:"pb"`
-	Split int    `json:"-"` // worker processes sharing this scenario
+	NoT3  bool   `json:"no_t3,omitempty"` // only T1 || T2 (used for the highest preemption bound)
+	Split int    `json:"-"`               // worker processes sharing this scenario
 }
 
 var schedBase = baseCfg{Arch: 3, Kind: "gzip", Chunk: 3, MinChunk: 0}
@@ -39,7 +40,11 @@ func (sc schedCase) describe(b *baseBlob) string {
 	if sc.Repl >= 0 {
 		d = b.repls[sc.Repl].Desc
 	}
-	return fmt.Sprintf("files a=%q (2 chunks) b=%q + the 1-byte landmark file the builder adds, %s; cache=%s semaphore=%d; T1=Cache(all files but the landmark) || T2=VerifyTOC(D);read all || T3=(after T2 verified) ReadAt of the corrupted file", "abcdef", "xyz", d, sc.Cache, sc.Sem)
+	t3 := " || T3=(after T2 verified) ReadAt of the corrupted file"
+	if sc.NoT3 {
+		t3 = ""
+	}
+	return fmt.Sprintf("files a=%q (2 chunks) b=%q + the 1-byte landmark file the builder adds, %s; cache=%s semaphore=%d; T1=Cache(all files but the landmark) || T2=VerifyTOC(D);read all%s", "abcdef", "xyz", d, sc.Cache, sc.Sem, t3)
 }
 
 func schedScenario(b *baseBlob, sc schedCase, scratch string) *vexp.Scenario {
@@ -164,6 +169,10 @@ func schedScenario(b *baseBlob, sc schedCase, scratch string) *vexp.Scenario {
 					done[1] = true
 				})
 				vrt.GoNamed("T3-ondemand", func() {
+					if sc.NoT3 {
+						done[2] = true
+						return
+					}
 					for !verified && !t2done {
 						vrt.Block("wait-verified", func() bool { return verified || t2done })
 					}
@@ -252,18 +261,22 @@ func schedCases(b *baseBlob, tier string) []schedCase {
 			{Repl: lm, Cache: "mem", Sem: 1, PB: 1, Split: 1},
 			{Repl: -1, Cache: "mem", Sem: 1, PB: 1, Split: 1},
 			{Repl: a3, Cache: "dir", Sem: 1, PB: 1, Split: 1},
-			{Repl: a3, Cache: "dira", Sem: 1, PB: 1, Split: 2},
 		}
 	}
-	out = append(out, schedCase{Repl: a3, Cache: "mem", Sem: 1, PB: 3, Split: 24})
-	for _, c := range []string{"mem", "dir", "dira"} {
-		for _, sem := range []int{1, 2} {
-			for _, r := range []int{a3, b0, a0, lm} {
-				out = append(out, schedCase{Repl: r, Cache: c, Sem: sem, PB: 2, Split: 6})
-			}
+	out = append(out, schedCase{Repl: a3, Cache: "mem", Sem: 1, PB: 3, NoT3: true, Split: 24})
+	for _, sem := range []int{1, 2} {
+		for _, r := range []int{a3, b0, a0, lm} {
+			out = append(out, schedCase{Repl: r, Cache: "mem", Sem: sem, PB: 2, Split: 8})
 		}
 	}
-	out = append(out, schedCase{Repl: -1, Cache: "mem", Sem: 1, PB: 2, Split: 6})
+	out = append(out,
+		schedCase{Repl: -1, Cache: "mem", Sem: 1, PB: 2, Split: 8},
+		schedCase{Repl: a3, Cache: "dir", Sem: 1, PB: 2, Split: 12},
+		schedCase{Repl: b0, Cache: "dir", Sem: 1, PB: 1, Split: 2},
+		// asynchronous file commit: every commit is one more runnable thread, the number of thread orders explodes
+		schedCase{Repl: a3, Cache: "dira", Sem: 1, PB: 0, Split: 2},
+		schedCase{Repl: a3, Cache: "dira", Sem: 2, PB: 0, Split: 2},
+		schedCase{Repl: a3, Cache: "dira", Sem: 1, PB: 1, Split: 12})
 	return out
 }
 
@@ -355,7 +368,7 @@ func schedPart(tier string) runner.Part {
 		}
 		var pbs []string
 		for _, x := range cases {
-			pbs = append(pbs, fmt.Sprintf("repl%d/%s/sem%d:pb%d", x.Repl, x.Cache, x.Sem, x.PB))
+			pbs = append(pbs, fmt.Sprintf("repl%d/%s/sem%d/t3=%v:pb%d", x.Repl, x.Cache, x.Sem, !x.NoT3, x.PB))
 		}
 		res.Extra = map[string]any{"preemption_bound_per_scenario": strings.Join(pbs, " "), "scenarios": len(cases)}
 		return res
